@@ -402,10 +402,14 @@ def r4_loaders(ctx):
                     ctx.ok('R4.loaders', site(f, c), 'wrapped in yang_to_legacy')
                     continue
                 srcs = set()
-                for a in c.args:
-                    srcs |= derives(f.node, a, stop=f.params)
-                    # comprehension variables: resolve through the enclosing comprehension
                 comp = enclosing(c, (ast.DictComp, ast.ListComp, ast.GeneratorExp, ast.SetComp))
+                bound = {x.id for g in comp.generators for x in ast.walk(g.target) if isinstance(x, ast.Name)} if comp is not None else set()
+                for a in c.args:
+                    # a variable of the enclosing comprehension stands for the elements of ITS iterable (another comprehension of
+                    # the function may use the same variable name for something else)
+                    if names_in(a) & bound:
+                        continue
+                    srcs |= derives(f.node, a, stop=f.params)
                 if comp is not None:
                     for g in comp.generators:
                         srcs |= names_in(g.iter)
